@@ -56,7 +56,9 @@ def prefix_pairs():
 
 
 SPECIALS = ["x^2", "a_i", "a>=b", "a <= b", ">=", "<=5", "line1\nline2", "Page \\pagenumber of \\totalpage", "\\pagefield", "p\\pagenumber.",
-            "x^2_i>=3", "\\foo", "\\foo12 bar", "\\foo bar", "\\unknowncmd{arg}", "plain text only", "a{b}c", "50% (n=3)", "\\%", "tab\\'x"]
+            "x^2_i>=3", "\\foo", "\\foo12 bar", "\\foo bar", "\\unknowncmd{arg}", "plain text only", "a{b}c", "50% (n=3)", "\\%", "tab\\'x",
+            # newlines at the edges and doubled; characters that only LOOK like line ends to str.splitlines must pass unchanged
+            "line1\n", "\nline2", "a\n\nb", "x\n\n", "a\u2028b", "a\u2029b", "end\u2028", "q\u2029\nr"]
 
 
 def probe_texts(r, n, thorough_slice=None):
